@@ -230,79 +230,70 @@ Definition valid (s : scenario) : bool := valid_ops 0 (snd s).
      ptrs    the pointer returned by each alloc of the scenario (to resolve releases)
    A release is KNOWN when its pointer is live and the given size is of the same class as the requested one; only then
    does the buffer stop being in use. *)
-Fixpoint cls_from (i : nat) (l : list N) (n : N) : nat :=
-  match l with
-  | [] => i
-  | s :: r => if n <=? s then i else cls_from (S i) r n
-  end.
-(* size class of a request: index of the first class that holds it; everything above the bound is one class *)
-Definition cls (n : N) : nat := if n <=? cached_bound then cls_from 0 class_sizes n else length class_sizes.
+(* size class of a request: the size of the first class that holds it; None = above the bound (not cached) *)
+Definition cls (n : N) : option N := if n <=? cached_bound then find (fun s => n <=? s) class_sizes else None.
 
-Record sstate := { a_sizes : list N; a_freed : list N; a_live : list (N * N * N); a_seen : list (N * nat);
+(* the allocator's books: size of every block obtained so far by id, ids given back so far *)
+Definition books : Type := list N * list N.
+Record sstate := { a_bk : books; a_live : list (N * N * N); a_seen : list (N * option N);
                    a_warned : bool; a_ptrs : list (N * N) }.
 Definition memN (x : N) (l : list N) : bool := existsb (N.eqb x) l.
-Definition size_of (s : sstate) (id : N) : option N := nth_error (a_sizes s) (N.to_nat id).
+Definition szof (sizes : list N) (id : N) : option N := nth_error sizes (N.to_nat id).
 (* the size passed down with a block: the size it was obtained with; blocks above the cached bound carry no size in the
    cache, there the caller's size (dealloc) or 0 (clear) is passed on *)
 Definition size_ok (a f caller : N) : bool := (f =? a) || ((cached_bound <? a) && (f =? caller)).
 
 (* one allocator call: ids are fresh and consecutive; a block is given back at most once, only if obtained, with its
    size, and never while a buffer inside it is in use (prot = ids that must not be given back now) *)
-Definition apply_ev (caller : N) (prot : list N) (s : sstate) (e : ev) : option sstate :=
+Definition apply_ev (caller : N) (prot : list N) (bk : books) (e : ev) : option books :=
   match e with
-  | EA id sz =>
-      if id =? N.of_nat (length (a_sizes s))
-      then Some {| a_sizes := a_sizes s ++ [sz]; a_freed := a_freed s; a_live := a_live s; a_seen := a_seen s;
-                   a_warned := a_warned s; a_ptrs := a_ptrs s |}
-      else None
+  | EA id sz => if id =? N.of_nat (length (fst bk)) then Some (fst bk ++ [sz], snd bk) else None
   | EF id sz =>
-      match size_of s id with
+      match szof (fst bk) id with
       | None => None
-      | Some a =>
-          if memN id (a_freed s) || negb (size_ok a sz caller) || memN id prot then None
-          else Some {| a_sizes := a_sizes s; a_freed := id :: a_freed s; a_live := a_live s; a_seen := a_seen s;
-                       a_warned := a_warned s; a_ptrs := a_ptrs s |}
+      | Some a => if memN id (snd bk) || negb (size_ok a sz caller) || memN id prot then None
+                  else Some (fst bk, id :: snd bk)
       end
   end.
-Fixpoint apply_evs (caller : N) (prot : list N) (s : sstate) (l : list ev) : option sstate :=
+Fixpoint apply_evs (caller : N) (prot : list N) (bk : books) (l : list ev) : option books :=
   match l with
-  | [] => Some s
-  | e :: r => match apply_ev caller prot s e with Some s1 => apply_evs caller prot s1 r | None => None end
+  | [] => Some bk
+  | e :: r => match apply_ev caller prot bk e with Some bk1 => apply_evs caller prot bk1 r | None => None end
   end.
 
-Definition live_ids (s : sstate) : list N := map (fun e => fst (fst e)) (a_live s).
+Definition ids_of (l : list (N * N * N)) : list N := map (fun e => fst (fst e)) l.
 Definition span (n : N) : N := N.max n 1.
 Definition overlaps (id off n : N) (e : N * N * N) : bool :=
   match e with (id', off', n') => (id =? id') && (off <? off' + span n') && (off' <? off + span n) end.
 Definition same_ptr (id off : N) (e : N * N * N) : bool := match e with (id', off', _) => (id =? id') && (off =? off') end.
-Fixpoint seen_cls (l : list (N * nat)) (id : N) : option nat :=
+Fixpoint seen_cls (l : list (N * option N)) (id : N) : option (option N) :=
   match l with
   | [] => None
   | (id', c) :: r => if id =? id' then Some c else seen_cls r id
   end.
 Fixpoint range_from (a : N) (k : nat) : list N := match k with O => [] | S k' => a :: range_from (a + 1) k' end.
+Definition optN_eqb (a b : option N) : bool :=
+  match a, b with Some x, Some y => x =? y | None, None => true | _, _ => false end.
 
-Definition set_live (s : sstate) (l : list (N * N * N)) : sstate :=
-  {| a_sizes := a_sizes s; a_freed := a_freed s; a_live := l; a_seen := a_seen s; a_warned := a_warned s; a_ptrs := a_ptrs s |}.
+Definition mk_s (bk : books) (l : list (N * N * N)) (sn : list (N * option N)) (w : bool) (p : list (N * N)) : sstate :=
+  {| a_bk := bk; a_live := l; a_seen := sn; a_warned := w; a_ptrs := p |}.
 
 (* alloc(n) returned (id, off) *)
 Definition check_alloc (s : sstate) (n : N) (it : item) : option sstate :=
-  match apply_evs 0 (live_ids s) s (i_evs it), i_ret it with
-  | Some s1, Some (id, off) =>
-      match size_of s1 id with
+  match apply_evs 0 (ids_of (a_live s)) (a_bk s) (i_evs it), i_ret it with
+  | Some bk, Some (id, off) =>
+      match szof (fst bk) id with
       | None => None                                                         (* not memory the cache owns *)
       | Some a =>
-          if memN id (a_freed s1) then None                                  (* already given back *)
+          if memN id (snd bk) then None                                      (* already given back *)
           else if negb (off + n <=? a) then None                             (* capacity >= requested size *)
-          else if existsb (overlaps id off n) (a_live s1) then None          (* overlaps a buffer in use *)
+          else if existsb (overlaps id off n) (a_live s) then None           (* overlaps a buffer in use *)
           else if i_warn it then None
-          else match seen_cls (a_seen s1) id with
-               | Some c => if Nat.eqb c (cls n)                              (* reuse only within its size class *)
-                           then Some {| a_sizes := a_sizes s1; a_freed := a_freed s1; a_live := (id, off, n) :: a_live s1;
-                                        a_seen := a_seen s1; a_warned := a_warned s1; a_ptrs := a_ptrs s1 ++ [(id, off)] |}
+          else match seen_cls (a_seen s) id with
+               | Some c => if optN_eqb c (cls n)                             (* reuse only within its size class *)
+                           then Some (mk_s bk ((id, off, n) :: a_live s) (a_seen s) (a_warned s) (a_ptrs s ++ [(id, off)]))
                            else None
-               | None => Some {| a_sizes := a_sizes s1; a_freed := a_freed s1; a_live := (id, off, n) :: a_live s1;
-                                 a_seen := (id, cls n) :: a_seen s1; a_warned := a_warned s1; a_ptrs := a_ptrs s1 ++ [(id, off)] |}
+               | None => Some (mk_s bk ((id, off, n) :: a_live s) ((id, cls n) :: a_seen s) (a_warned s) (a_ptrs s ++ [(id, off)]))
                end
       end
   | _, _ => None
@@ -319,35 +310,37 @@ Fixpoint drop_live (l : list (N * N * N)) (id off : N) : list (N * N * N) :=
   | e :: r => if same_ptr id off e then r else e :: drop_live r id off
   end.
 
+(* is dealloc(p, n) the release of a buffer in use, with a size of the class it was requested in? *)
+Definition known (s : sstate) (p : option (N * N)) (n : N) : bool :=
+  match p with
+  | Some (id, off) => match find_live (a_live s) id off with
+                      | Some req => optN_eqb (cls req) (cls n)
+                      | None => false
+                      end
+  | None => false
+  end.
+
 (* dealloc(p, n); p = None for a foreign pointer *)
 Definition check_dealloc (s : sstate) (p : option (N * N)) (n : N) (it : item) : option sstate :=
-  let known := match p with
-               | Some (id, off) => match find_live (a_live s) id off with
-                                   | Some req => Nat.eqb (cls req) (cls n)
-                                   | None => false
-                                   end
-               | None => false
-               end in
   match i_ret it with
   | Some _ => None
   | None =>
-      if known then
+      if known s p n then
         match p with
         | Some (id, off) =>
             let live' := drop_live (a_live s) id off in
-            match apply_evs n (map (fun e => fst (fst e)) live') s (i_evs it) with
-            | Some s1 => if i_warn it then None else Some (set_live s1 live')
+            match apply_evs n (ids_of live') (a_bk s) (i_evs it) with
+            | Some bk => if i_warn it then None else Some (mk_s bk live' (a_seen s) (a_warned s) (a_ptrs s))
             | None => None
             end
         | None => None
         end
       else
-        match apply_evs n (live_ids s) s (i_evs it) with
-        | Some s1 =>
+        match apply_evs n (ids_of (a_live s)) (a_bk s) (i_evs it) with
+        | Some bk =>
             (* one-time warning: printed exactly at the first unknown release *)
-            if Bool.eqb (i_warn it) (negb (a_warned s1))
-            then Some {| a_sizes := a_sizes s1; a_freed := a_freed s1; a_live := a_live s1; a_seen := a_seen s1;
-                         a_warned := true; a_ptrs := a_ptrs s1 |}
+            if Bool.eqb (i_warn it) (negb (a_warned s))
+            then Some (mk_s bk (a_live s) (a_seen s) true (a_ptrs s))
             else None
         | None => None
         end
@@ -355,23 +348,24 @@ Definition check_dealloc (s : sstate) (p : option (N * N)) (n : N) (it : item) :
 
 (* clearCache: nothing in use is touched; every block handed out earlier and not in use now is back at the allocator *)
 Definition check_clear_cache (s : sstate) (it : item) : option sstate :=
-  match apply_evs 0 (live_ids s) s (i_evs it), i_ret it, i_warn it with
-  | Some s1, None, false =>
-      if forallb (fun e => memN (fst e) (a_freed s1) || memN (fst e) (live_ids s1)) (a_seen s1) then Some s1 else None
+  match apply_evs 0 (ids_of (a_live s)) (a_bk s) (i_evs it), i_ret it, i_warn it with
+  | Some bk, None, false =>
+      if forallb (fun e => memN (fst e) (snd bk) || memN (fst e) (ids_of (a_live s))) (a_seen s)
+      then Some (mk_s bk (a_live s) (a_seen s) (a_warned s) (a_ptrs s)) else None
   | _, _, _ => None
   end.
 (* clearAll: everything obtained since construction is back (buffers in use included: they stop being in use) *)
 Definition check_clear_all (nctor : nat) (s : sstate) (it : item) : option sstate :=
-  match apply_evs 0 [] s (i_evs it), i_ret it, i_warn it with
-  | Some s1, None, false =>
-      if forallb (fun id => memN id (a_freed s1)) (range_from (N.of_nat nctor) (length (a_sizes s1) - nctor))
-      then Some (set_live s1 []) else None
+  match apply_evs 0 [] (a_bk s) (i_evs it), i_ret it, i_warn it with
+  | Some bk, None, false =>
+      if forallb (fun id => memN id (snd bk)) (range_from (N.of_nat nctor) (length (fst bk) - nctor))
+      then Some (mk_s bk [] (a_seen s) (a_warned s) (a_ptrs s)) else None
   | _, _, _ => None
   end.
 (* destruction: what construction obtained is back; if everything else was back before, nothing is outstanding now *)
 Definition check_destroy (nctor : nat) (s : sstate) (it : item) : bool :=
-  match apply_evs 0 [] s (i_evs it), i_ret it, i_warn it with
-  | Some s1, None, false => forallb (fun id => memN id (a_freed s1)) (range_from 0 nctor)
+  match apply_evs 0 [] (a_bk s) (i_evs it), i_ret it, i_warn it with
+  | Some bk, None, false => forallb (fun id => memN id (snd bk)) (range_from 0 nctor)
   | _, _, _ => false
   end.
 
@@ -390,13 +384,12 @@ Fixpoint check_ops (nctor : nat) (s : sstate) (ops : list op) (o : obs) : bool :
   | _, _ => false
   end.
 
-Definition sinit : sstate := {| a_sizes := []; a_freed := []; a_live := []; a_seen := []; a_warned := false; a_ptrs := [] |}.
 (* construction obtains memory, returns nothing, prints nothing *)
 Definition spec (sc : scenario) (o : obs) : bool :=
   match o with
   | it0 :: o' =>
-      match apply_evs 0 [] sinit (i_evs it0), i_ret it0, i_warn it0 with
-      | Some s0, None, false => check_ops (length (a_sizes s0)) s0 (snd sc) o'
+      match apply_evs 0 [] ([], []) (i_evs it0), i_ret it0, i_warn it0 with
+      | Some bk, None, false => check_ops (length (fst bk)) (mk_s bk [] [] false []) (snd sc) o'
       | _, _, _ => false
       end
   | [] => false
